@@ -44,6 +44,7 @@ def analyse_paths(F, spec, w):
         return out
     wk = numabs.NumWalker(b, numabs.Cfg(w), F, contracts.C, assume)
     wk.inline = spec.inline
+    wk.gen_map = dict(getattr(spec, "gen", None) or {})
     return wk, wk.run(), b
 
 
